@@ -264,11 +264,12 @@ Definition inner_fuel (cu : cursor) : nat := S (S (length (cu_rest cu))).
    implementation; the structured model stops there *)
 Definition copies_ok (cs : list copyop) : bool := forallb (fun c => (0 <=? cp_n c) && (cp_n c =? zlen (cp_bytes c))) cs.
 
-(* repaired outer loop: the buffer iterator and the current buffer live outside the fragment loop *)
+(* repaired outer loop: the buffer iterator and the current buffer live outside the fragment loop.
+   Result: the frames written and, for the record, every copy_from call issued (in order) *)
 Fixpoint bulk_frag_loop (fuel : nat) (l : log) (rv : Z -> Z -> Z) (tid mpl : Z)
-                        (flags remaining frame_offset : Z) (cu : cursor) : outcome (list entry) :=
+                        (flags remaining frame_offset : Z) (cu : cursor) : outcome (list entry * list copyop) :=
   match fuel with
-  | O => Ok []
+  | O => Ok ([], [])
   | S f =>
       let btw := Z.min remaining mpl in
       let flen := btw + HDR in
@@ -279,10 +280,19 @@ Fixpoint bulk_frag_loop (fuel : nat) (l : log) (rv : Z -> Z -> Z) (tid mpl : Z)
           let flags' := if remaining <=? mpl then Z.lor flags F_END else flags in
           let fr := data_frame l frame_offset flen tid flags' T_DATA (rv frame_offset flen) body in
           let remaining' := remaining - btw in
-          if remaining' <=? 0 then Ok [Committed fr]
-          else r <- bulk_frag_loop f l rv tid mpl 0 remaining' (frame_offset + alen) cu' ;; Ok (Committed fr :: r)
+          if remaining' <=? 0 then Ok ([Committed fr], cs)
+          else r <- bulk_frag_loop f l rv tid mpl 0 remaining' (frame_offset + alen) cu' ;; Ok (Committed fr :: fst r, cs ++ snd r)
       | None => Crash
       end
+  end.
+
+(* bytes the frames of the fragment loop occupy: what frame_offset advances by over the whole loop *)
+Fixpoint frag_span (fuel : nat) (mpl remaining : Z) : Z :=
+  match fuel with
+  | O => 0
+  | S f =>
+      let btw := Z.min remaining mpl in
+      align (btw + HDR) FA + (if remaining - btw <=? 0 then 0 else frag_span f mpl (remaining - btw))
   end.
 
 (* the copies of one fragment as the repository issues them before the fix: the iterator restarts at the first buffer
@@ -326,6 +336,6 @@ Definition ta_append_fragmented_bulk (m : mode) (rv : Z -> Z -> Z) (l : log) (id
     match bufs with
     | [] => Panic       (* expect("At least one buffer must be supplied") *)
     | b :: r =>
-        frames <- bulk_frag_loop (frag_fuel len mpl) l1 rv (c_tid c) mpl F_BEGIN len off (mkCursor b 0 r) ;;
-        Ok (mkAppended (set_part l1 idx (term_put (part l1 idx) off frames)) (wrap32 resulting) None)
+        fc <- bulk_frag_loop (frag_fuel len mpl) l1 rv (c_tid c) mpl F_BEGIN len off (mkCursor b 0 r) ;;
+        Ok (mkAppended (set_part l1 idx (term_put (part l1 idx) off (fst fc))) (wrap32 resulting) None)
     end.
